@@ -57,6 +57,7 @@ Definition sub_mismatch (c : sub_case) : bool :=
                  (map (fun x => (fst x, sm_rest (snd x), sm_trail (snd x))) (sw_out w)) (s_out o)
         && list_eqb settle_eqb (map (fun m => st (sm_st m)) (sw_heap w)) (s_final o)
         && Nat.eqb (sw_closes w) (s_closes o)
+        && forallb (fun x => optN_eqb (snd (pclose (sk_st c) (fst x))) (snd x)) (s_close_rets o)
         && list_eqb Bool.eqb (map res_true (sw_rets w)) (sk_rets c)
         && counts_agree slabel_eqb (s_tab o) (map sobs_label (sw_obs w))).
 
